@@ -719,6 +719,7 @@ func genC18(ctx *fw.Ctx) []fw.Case {
 	}
 	cases = append(cases, fw.Case{ID: "ordering-pairs/cmpxchg", Run: c18CmpXchgPairs})
 	cases = append(cases, fw.Case{ID: "flagset/FastMathFlag", Run: c18FastMathSubsets})
+	cases = append(cases, fw.Case{ID: "flag-lists/edited-in-place", Run: c18FlagListsEdited})
 	for _, k := range []string{"global", "global-declaration", "declaration", "definition", "alias"} {
 		k := k
 		cases = append(cases, fw.Case{ID: "header-combinations/" + k, Run: func(r *fw.Rec) { c18HeaderCombos(r, k) }})
@@ -1586,4 +1587,137 @@ func c18FastMathSubsets(r *fw.Rec) {
 		}
 	}
 	r.Tally("flag_sets", "FastMathFlag: all 256 subsets")
+}
+
+// c18FlagListsEdited: the keyword lists of a parsed module (overflow flags,
+// fast-math flags) belong to the instruction or expression that carries them.
+// One element of one list is overwritten in place; every other keyword of the
+// module must print as before, and a module parsed afterwards must map the
+// keywords to the values it always maps them to.
+func c18FlagListsEdited(r *fw.Rec) {
+	const src = `@g = global i32 0
+@c1 = global i64 add nsw (i64 ptrtoint (i32* @g to i64), i64 1)
+@c2 = global i64 sub nuw (i64 ptrtoint (i32* @g to i64), i64 1)
+@c3 = global i64 mul nsw (i64 ptrtoint (i32* @g to i64), i64 3)
+define i32 @f(i32 %a, i32 %b, float %x, float %y) {
+  %1 = add nsw i32 %a, %b
+  %2 = sub nsw i32 %1, %b
+  %3 = mul nuw i32 %2, %b
+  %4 = shl nuw i32 %3, 1
+  %5 = add nuw nsw i32 %4, 1
+  %6 = fadd nnan float %x, %y
+  %7 = fmul nnan float %6, %y
+  %8 = fsub ninf float %7, %y
+  %9 = fdiv fast float %8, %y
+  %10 = fneg nsz float %9
+  %11 = fcmp nnan olt float %10, %y
+  ret i32 %5
+}
+define i32 @h(i32 %a) {
+  %1 = add nsw i32 %a, 1
+  %2 = mul nuw i32 %1, 3
+  ret i32 %2
+}
+`
+	type loc struct {
+		what string
+		get  func() reflect.Value // the slice
+	}
+	collect := func(m *ir.Module) []loc {
+		var out []loc
+		visit := func(what string, v interface{}) {
+			rv := reflect.ValueOf(v)
+			if rv.Kind() != reflect.Ptr || rv.Elem().Kind() != reflect.Struct {
+				return
+			}
+			for _, fn := range []string{"OverflowFlags", "FastMathFlags"} {
+				f := rv.Elem().FieldByName(fn)
+				if f.IsValid() && f.Kind() == reflect.Slice && f.Len() > 0 {
+					f := f
+					out = append(out, loc{what + "." + fn, func() reflect.Value { return f }})
+				}
+			}
+		}
+		for _, g := range m.Globals {
+			visit("global @"+g.Name()+" initializer", g.Init)
+		}
+		for _, f := range m.Funcs {
+			for _, b := range f.Blocks {
+				for i, inst := range b.Insts {
+					visit(fmt.Sprintf("@%s instruction %d", f.Name(), i), inst)
+				}
+			}
+		}
+		return out
+	}
+	m, perr, pmsg := parseGuard("c18-flag-lists", src)
+	if pmsg != "" || perr != nil {
+		r.Inconclusive("cannot parse the flag-list module")
+		return
+	}
+	before, _ := printGuard(m)
+	locs := collect(m)
+	if len(locs) < 10 {
+		r.Inconclusive("flag lists not found")
+		return
+	}
+	// no two lists share their storage
+	seen := map[uintptr]string{}
+	for _, l := range locs {
+		r.Eval(1)
+		p := l.get().Pointer()
+		if other, ok := seen[p]; ok {
+			r.Violate(fw.Violation{Key: "flag-lists/shared-storage", Input: src, What: fmt.Sprintf("the keyword list of %s and the one of %s are the same storage: editing one edits the other", l.what, other)})
+			return
+		}
+		seen[p] = l.what
+	}
+	// overwrite one element of each list in turn (on a fresh parse each time)
+	for k := range locs {
+		r.Eval(1)
+		mk, _, _ := parseGuard("c18-flag-lists", src)
+		if mk == nil {
+			return
+		}
+		ls := collect(mk)
+		if len(ls) != len(locs) {
+			r.Inconclusive("flag lists differ between two parses")
+			return
+		}
+		sl := ls[k].get()
+		old := sl.Index(0).Uint()
+		alt := uint64(enum.OverflowFlagNUW)
+		if strings.HasSuffix(ls[k].what, "FastMathFlags") {
+			alt = uint64(enum.FastMathFlagContract)
+		} else if old == alt {
+			alt = uint64(enum.OverflowFlagNSW)
+		}
+		oldText := sl.Index(0).Interface().(fmt.Stringer).String()
+		sl.Index(0).SetUint(alt)
+		newText := sl.Index(0).Interface().(fmt.Stringer).String()
+		after, _ := printGuard(mk)
+		bl, al := strings.Split(before, "\n"), strings.Split(after, "\n")
+		changed := 0
+		for i := range bl {
+			if i < len(al) && bl[i] != al[i] {
+				changed++
+				if strings.Replace(bl[i], " "+oldText+" ", " "+newText+" ", 1) != al[i] {
+					r.Violate(fw.Violation{Key: "flag-lists/edit-leaks", Input: src, What: fmt.Sprintf("after overwriting the first keyword of %s (%s -> %s) another line changed: %q -> %q", ls[k].what, oldText, newText, bl[i], al[i])})
+					return
+				}
+			}
+		}
+		if changed != 1 || len(al) != len(bl) {
+			r.Violate(fw.Violation{Key: "flag-lists/edit-leaks", Input: src, What: fmt.Sprintf("after overwriting the first keyword of %s (%s -> %s) %d lines changed, expected exactly one", ls[k].what, oldText, newText, changed), Expected: before, Observed: after})
+			return
+		}
+		// a module parsed afterwards is not affected
+		m3, _, _ := parseGuard("c18-flag-lists", src)
+		if t3, _ := printGuard(m3); t3 != before {
+			r.Violate(fw.Violation{Key: "flag-lists/edit-leaks-into-later-parse", Input: src, What: fmt.Sprintf("after overwriting the first keyword of %s in one module, the same text parsed again prints differently: %s", ls[k].what, firstDiffLines(before, t3))})
+			return
+		}
+		r.Nontrivial("flag-list-edit:" + ls[k].what)
+	}
+	r.TallyN("flag_lists", "edited-in-place-without-leak", len(locs))
 }
